@@ -22,7 +22,7 @@ HARNESS = "c42"
 TIMEOUT = 900
 MANIFEST = {
     "level_text": "Kernel-checked for the volatile, unchunked flow (C43_holds, C43_window): in every reachable state of the model of both controllers under any drop / duplicate / reorder / tick / speed schedule of any length, every SequencedMessage the producer controller sends has seq <= the highest requestUpToSeq the consumer controller has sent so far; producer demandUpTo and currentSeq never exceed it; len(buffer) <= window and requestUpToSeq <= confirmedSeq + window after every consumer handler. Same inductive invariant, model, monitor and step-by-step replay of the real handlers as C42.",
-    "level_note": "The theorems are about the unchunked model (Model/C42). The chunked path is modelled too (Model/C42c: storeChunks, chunk buffering, assembly, structural-violation failures) and tied by the same step-by-step replay plus a chunk-aware monitor, but not proved; there the differential FOUND a violation of the demand clause on the unchanged code (finding C43-F1, fixes/C43-register-demand.diff): after a re-registration chunks are sent beyond every grant. Durable queue and controller restart remain outside the model. Observation recorded in design/C43.md: the bound is protected twice (credit gating in allowNextRequest and the seq > demandUpTo test in emitSequenced); removing only the latter breaks the correspondence but no input violates the property.",
+    "level_note": "The theorems are about the unchunked model (Model/C42). The chunked path is modelled too (Model/C42c: storeChunks, chunk buffering, assembly, structural-violation failures) and tied by the same step-by-step replay plus a chunk-aware monitor, but not proved; there the differential found a violation of the demand clause (after a re-registration chunks were sent beyond every grant); it was repaired in /repo 78360fc (fixes/C43-register-demand.diff), the models follow the repaired code, the witness stays in the corpus and reverting the fix is seeded/C43-revert-register-demand. Durable queue and controller restart remain outside the model. Observation recorded in design/C43.md: the bound is protected twice (credit gating in allowNextRequest and the seq > demandUpTo test in emitSequenced); removing only the latter breaks the correspondence but no input violates the property.",
     "technique": "Lean 4 inductive invariant over all fault schedules of an executable model of both controllers + per-step differential replay of the real handlers",
 }
 TRUSTED = list(_c42.TRUSTED)
@@ -34,22 +34,9 @@ compare = _c42.compare
 
 
 def classify(case, impl, why):
-    """C43-F1: chunk-mode flow, demand failure, and the first message above the highest request so far is a chunk"""
-    f = case.split()
-    if not (len(f) > 3 and f[2].startswith("m") and f[3].startswith("L")) or not why or "demand:" not in why:
-        return None
-    maxreq = 0
-    for seg in (impl or "").split(";"):
-        for tok in seg.split():
-            if tok.startswith("cp:"):
-                for m in REQ.findall(tok):
-                    maxreq = max(maxreq, int(m[3]))
-            if tok.startswith("pc:"):
-                for kind, seq in re.findall(r"(SC?)\(\d+,\d+,(\d+),", tok):
-                    if int(seq) > maxreq:
-                        return "C43-F1" if kind == "SC" else None
+    # C43-F1 (chunks sent beyond every grant after a re-registration) was fixed in /repo 78360fc: no failure is
+    # accepted as known any more
     return None
-
 
 
 def gen_cases(rng, tier):
